@@ -129,6 +129,18 @@ def _cases(tier, rng):
     yield mk([vv, 'C'], [(0, False, '\\vv{a{b'), (1, False, '\\v{a{b}c}d'), (0, True, '\\vv{a}{')], rng, via=False)
     yield mk(['C', 'A'], [(0, False, '\\unk [x]'), (1, False, '\\\\ [x]'), (1, False, '\\o [x]{y}')], rng, via=True, fresh=11)
     yield mk(['A', 'C'], [(0, False, '\\\\ [x]'), (1, False, '\\unk [x]'), (0, False, '\\o [x]{y}')], rng, via=True)
+    # 0b. histories of FAILING parses: strict-mode errors raised deep inside nested groups / formulas / environments / arguments
+    #     (the caller catches them), many times over, then ordinary documents — nothing a failed parse touched on its way out
+    #     may be left behind in the process
+    deep = lambda n, inner: '{[$' * 0 + ''.join(['{', '\\textbf{', '$', '\\begin{center}', '[', '\\emph{'][k % 6] for k in range(n)) + inner
+    bads = [deep(24, '\\end{zz}'), deep(18, '}}]'), deep(30, '\\)'), deep(12, '\\begin'), '{' * 30 + '\\end{q}' + '}' * 30, deep(20, '\\verb')]
+    goods = ['Hello {\\textbf{world} and $x^{2}$}, see \\begin{center}{a} [b]\\end{center}.', '\\section[short]{A {nested} title} text \\emph{more {text}}',
+             '{a}', '$x$', '\\textbf{b}', '\\begin{center}c\\end{center}', '\\sqrt[3]{x}']
+    for rep in (3, 12):
+        for b in bads:
+            yield mk(['default'], [(0, 0, goods[0])] + [(0, 0, b)] * rep + [(0, rng.randint(0, 1), g) for g in goods], rng, via=False)
+    yield mk(['default'], [(0, 0, b) for b in bads] * 3 + [(0, 0, g) for g in goods] + [(0, 1, g) for g in goods], rng, via=False, fresh=13)
+    yield mk(['A', 'default'], [(rng.randint(0, 1), 0, '{' * 20 + '\\end{e}') for _ in range(8)] + [(0, 0, '\\m{a}{b}'), (1, 0, goods[1]), (0, 1, '{x}\\o[y]{z}')], rng, via=True)
     # 1. [d1, d2, d1] for ordered pairs of pool documents, per context
     for name in CTX_NAMES:
         P = pool(name)
